@@ -128,4 +128,37 @@ mod verif_kani {
         drop(g1);
         assert!((&sw).close() == plus(plus(total, s2), s1));
     }
+
+    // a borrowed guard's overwrite / discard on a stopwatch that is shared with a live owned guard: the stopwatch
+    // must stay attached to the shared cell (the owned guard's span still counts afterwards)
+    #[kani::proof]
+    #[kani::unwind(2)]
+    fn borrowed_overwrite_with_live_owned_guard() {
+        let total = any_total();
+        let (s1, s2) = (any_dur(), any_dur());
+        let mut sw = stopwatch_with(total);
+        let g1 = stopped_owned_guard(&mut sw, s1);
+        {
+            let g = TimerGuard { start: None, self_time: Some(s2), timer: &mut sw.duration };
+            g.overwrite();
+        }
+        assert!((&sw).close() == Some(s2)); // overwrite replaces the total by the guard's span
+        drop(g1);
+        assert!((&sw).close() == Some(s2 + s1)); // and the live owned guard still writes to THIS stopwatch
+    }
+    #[kani::proof]
+    #[kani::unwind(2)]
+    fn borrowed_discard_with_live_owned_guard() {
+        let total = any_total();
+        let (s1, s2) = (any_dur(), any_dur());
+        let mut sw = stopwatch_with(total);
+        let g1 = stopped_owned_guard(&mut sw, s1);
+        {
+            let g = TimerGuard { start: None, self_time: Some(s2), timer: &mut sw.duration };
+            g.discard();
+        }
+        assert!((&sw).close() == total);
+        drop(g1);
+        assert!((&sw).close() == plus(total, s1));
+    }
 }
